@@ -89,7 +89,18 @@ fn corrupt(rng: &mut Rng, s: &str) -> String {
     let mut b: Vec<char> = s.chars().collect();
     if b.is_empty() { return "x".into(); }
     let k = rng.below(b.len() as u64) as usize;
-    match rng.below(7) {
+    match rng.below(9) {
+        // a number that does not fit its type: the cost (i16) or a connection id (u16) of the first row
+        7 | 8 => {
+            let big = *rng.pick(&["40000", "-32769", "65536", "-100000", "99999999999"]);
+            let mut cells: Vec<String> = s.splitn(5, ',').map(|x| x.to_string()).collect();
+            if cells.len() == 5 && !cells[0].contains('"') && !cells[0].contains('\n') {
+                let which = if big.starts_with('-') || big == "40000" { 3 } else { 1 + rng.below(2) as usize };
+                cells[which] = big.to_string();
+                return cells.join(",");
+            }
+            b.insert(k, ',');
+        }
         0 => { b.remove(k); }
         1 => { b.insert(k, ','); }
         2 => { b.insert(k, '"'); }
